@@ -53,8 +53,7 @@ META = {
         "rewrite_static_ok (evaluated on every case), if the direct application rewrites the payload the converted matcher + "
         "rewriter produce exactly the same payload, and no match stays no match; proved by a statement-by-statement simulation "
         "(C27_rewriter_simulates_direct_rewrite). Left open: the direction in which the direct rewrite raises (ill-typed "
-        "rewrites) and replace-with-operation for a root without result types: there the evidence is the correspondence and a "
-        "model test. "
+        "rewrites): there the evidence is the correspondence and a model test. "
         "Tie: hand-written model with one flag per repair (probed on /repo at every run) vs the real code: conversion output "
         "compared instruction by instruction, one match_and_rewrite of both real paths at every operation of generated and "
         "corpus payloads compared with the model (outcome + resulting IR)."),
@@ -67,8 +66,8 @@ META = {
         "(the predicate tree is a chain), PDLInterpFunctions for the 21 operations that occur. Not covered: several patterns "
         "(tree merging, switch nodes), optimize_for_eqsat / ematch, native constraints and rewrites, pdl.operands/types/"
         "results/range (variadics), typed pdl.attribute, DAG-shaped patterns, re-used pdl.result values in the theorems "
-        "(model and correspondence only), regions/successors in the payload, the PDL verifier, rewrite equivalence as a "
-        "theorem, a pdl.result index beyond the declared results of a new operation and a replacement operation with "
+        "(model and correspondence only), regions/successors in the payload, the PDL verifier, rewrite equivalence when "
+        "the direct rewrite raises, a pdl.result index beyond the declared results of a new operation and a replacement operation with "
         "results for a root without results (ill-typed patterns on which the two paths differ: IndexError / ValueError vs "
         "null value / erase)."),
 }
@@ -942,11 +941,8 @@ def impl_convert(case):
     d = _red(dump_conversion(pattern_text(case["p"], V), V))
     ok = 1 if d[0] == 0 else 0
     # third slot: the static hypothesis of C27_rewrite_equiv_partial (rewrite_static_ok) is expected to hold for every
-    # pattern that converts, except the one shape the theorem leaves out: pdl.replace-with-operation for a root
-    # that declares no result types
-    p = case["p"]
-    left_out = (not p["root"]["rtys"]) and any(s[0] == "replace_op" for s in p["rw"])
-    return [d, ok, 1 if ok and not left_out else 0]
+    # pattern that converts
+    return [d, ok, ok]
 
 
 def coq_convert(case):
